@@ -129,7 +129,7 @@ def pool_small(**kw) -> Pool:
 def pool_full(**kw) -> Pool:
     return Pool(
         betas=BETAS, vars=VARS,
-        leaves=[('num', '2'), ('num', '1/2'), ('beta', 1), ('beta', 2), ('beta', 3), ('beta', 4), ('var', 1), ('var', 2), ('var', 3)],
+        leaves=[('num', '2'), ('num', '1/2'), ('num', '1'), ('beta', 1), ('beta', 2), ('beta', 3), ('beta', 4), ('var', 1), ('var', 2), ('var', 3)],
         unops=UNOPS, binops=BINOPS, naryops=NARYOPS + ['bioMultSum3'], **kw,
     )
 
@@ -150,7 +150,7 @@ def pool_draws(**kw) -> Pool:
 def pool_mid(**kw) -> Pool:
     return Pool(
         betas=BETAS, vars=VARS,
-        leaves=[('num', '2'), ('beta', 1), ('beta', 2), ('beta', 3), ('beta', 4), ('var', 1), ('var', 2), ('var', 3)],
+        leaves=[('num', '2'), ('num', '1'), ('beta', 1), ('beta', 2), ('beta', 3), ('beta', 4), ('var', 1), ('var', 2), ('var', 3)],
         unops=UNOPS, binops=BINOPS, naryops=NARYOPS, **kw,
     )
 
